@@ -51,6 +51,13 @@ CHECKS = {
             "alias == base, MIME-independence of routed extensions, and read_file dispatch observed through stubs on real temp files.",
             "Trusts the README tables as the specification of routing; Windows path semantics are not observable on this host.",
             "DESIGN.md §8 C07"),
+    "C11": ("exploration",
+            "reference predicate vs validate_zipfile on a complete boundary lattice (stub infolist + forged real ZIPs) and a zip-order event-log monitor (ZipFile.__init__/open/read vs validation events, matched by content sha1) over all ZIP-container extractors",
+            "The five thresholds (+ zero-compressed clause) are decided on every boundary vector (each threshold -1/0/+1, pairs combined, several limit settings, directory entries) three ways: stub infolist, "
+            "validate_zip_bytesio on a forged real ZIP (stream position checked), open_zipfile; the event-log checker demands that every member read in the 9 extractors and the ODF encryption probe is preceded by a "
+            "successful validation of a ZipFile over the same bytes and that nothing is decompressed before a rejection.",
+            "Where the statement is silent (directory entries in the entry count, compressed bytes of empty entries) neither reading is demanded; float ratios are exact for sizes < 2^44.",
+            "DESIGN.md §8 C11"),
     "C13": ("exploration",
             "ground-truth tables (token cells and typed values) vs iterate_tables()/get_dim() of the real extractors",
             "Generated r x c grids with empty cells, multi-paragraph cells, header rows, typed spreadsheet values; compared cell by cell (tokens / value equality), table count/order and get_dim().",
